@@ -8,13 +8,13 @@ export CARGO_TARGET_DIR="${CARGO_TARGET_DIR:-/tmp/confirm_target}"
 git -C /repo worktree add --detach "$WT" HEAD -q || exit 3
 cd "$WT" || exit 3
 cp "$DEMO" tests/seed_demo.rs
-cargo test --offline $FEAT --test seed_demo >/tmp/confirm_a.log 2>&1; A=$?
+cargo test --offline $FEAT --test seed_demo >/tmp/confirm_a_$$.log 2>&1; A=$?
 rm tests/seed_demo.rs
 git apply "$PATCH" || { echo "PATCH DOES NOT APPLY"; cd /; git -C /repo worktree remove --force "$WT"; exit 4; }
-cargo test --workspace --no-fail-fast --offline >/tmp/confirm_b.log 2>&1; B=$?
-NPASS=$(grep -E "^test result: ok" /tmp/confirm_b.log | sed 's/.*ok. \([0-9]*\) passed.*/\1/' | paste -sd+ | bc)
+cargo test --workspace --no-fail-fast --offline >/tmp/confirm_b_$$.log 2>&1; B=$?
+NPASS=$(grep -a -E "^test result: ok" /tmp/confirm_b_$$.log | sed 's/.*ok. \([0-9]*\) passed.*/\1/' | paste -sd+ | bc)
 cp "$DEMO" tests/seed_demo.rs
-cargo test --offline $FEAT --test seed_demo >/tmp/confirm_c.log 2>&1; C=$?
+cargo test --offline $FEAT --test seed_demo >/tmp/confirm_c_$$.log 2>&1; C=$?
 cd /; git -C /repo worktree remove --force "$WT"
 echo "demo_without_change_exit=$A suite_with_change_exit=$B suite_passed=$NPASS demo_with_change_exit=$C"
-if [ $A -eq 0 ] && [ $B -eq 0 ] && [ "$NPASS" = "146" ] && [ $C -ne 0 ]; then echo CONFIRMED; exit 0; else echo NOT-CONFIRMED; tail -5 /tmp/confirm_a.log /tmp/confirm_b.log /tmp/confirm_c.log; exit 1; fi
+if [ $A -eq 0 ] && [ $B -eq 0 ] && [ "$NPASS" = "146" ] && [ $C -ne 0 ]; then echo CONFIRMED; exit 0; else echo NOT-CONFIRMED; tail -n 5 /tmp/confirm_a_$$.log /tmp/confirm_b_$$.log /tmp/confirm_c_$$.log; exit 1; fi
